@@ -18,10 +18,21 @@ Two kinds of cases against the real code of the tree under test:
         with offsets and values, and the value each assigned terminal contributes to
         the object graph — compared with the attributes of the model).
 
+  srcs  grammar string tokens *as written* — either quote, escape sequences (\\xHH \\uHHHH \\UHHHHHHHH octal
+        \\N{name} \\n …), things that look like escapes and are none, invalid escapes — through the live
+        `visit_str_match`.  Lean side: `Kwd.visitStrMatch` (= `decode_escapes` + `compileLit`).
+Every literal of a gram case also has a *spelling* (the token written in the grammar): the value is what
+the generator derives inputs from and what the oracle judges (checked against Python's own reading of the
+token), the spelling is what textX and the Lean model get.
+
 The direct oracle decides the three clauses of the property on the implementation's
 observations only.
 """
+import ast
+import codecs
 import re
+import unicodedata
+import warnings
 
 from harness.core import Check, use_repo
 from harness.txutil import dump_model
@@ -40,6 +51,122 @@ SEP_POOL = ["and", "or", "a", ",", ";", "_x", "If", "->"]
 DEFAULT_WS = "\t\n\r "
 WS_POOL = [" ", " \n;", "\t\n\r ,", " _"]
 OPT_DEFAULTS = {"rg": False, "memo": False, "autoinit": True, "tools": False, "skipws": True, "ws": None}
+
+
+# ----------------------------------------------------------------------------- literals as written
+SINGLE = {"\\": "\\\\", "'": "\\'", '"': '\\"', "\a": "\\a", "\b": "\\b", "\f": "\\f", "\n": "\\n", "\r": "\\r",
+          "\t": "\\t", "\v": "\\v"}
+ESC_FORMS = ["x", "o", "u", "U", "N", "c"]
+# characters that start an escape sequence after a backslash (a bare backslash must not precede them)
+ESC_START = set("Uux01234567N\\'\"abfnrtv\n")
+# values that cannot be written without an escape, or contain things that look like one
+ESC_VALUES = ["a\tb", "'", "it's", "\\", "a\\b", '"', '"q"', "\\d", "\\w+", "\n", "a'", "\\x41", "x\\"]
+EXTRA_KW = ["café", "naïve", "begin", "Ünï", "x_1"]
+# tokens written by hand: short / unterminated escapes (no escape: the backslash stays), escapes that decode to
+# keywords, aliases and lower-case names, octal > 0o377, invalid escapes (TextXSyntaxError with and without autokwd)
+RAW_TOKENS = [r"'\x4'", r"'\u12'", r"'\U0001'", r"'\N{}'", r"'\N{LATIN SMALL LETTER A'", r"'\8'", r"'\d'", r"'\q'", r"'\N'",
+              r"'\xZZ'", r"'\x4g'", r"'a\x4g'", r"'\N{NO SUCH NAME}'", r"'\U00110000'", r"'\UFFFFFFFF'", r"'\u00zz'",
+              r"'a\0'", r"'\08'", r"'\1234'", r"'\123'", r"'\x41\x42'", r"'\\x41'", r"'\N{LATIN SMALL LETTER A}1'",
+              r"'\N{latin small letter a}'", r"'\N{LF}'", r"'\u00e9t\u00E9'", r"'x\n'", "\"\\'\"", "'\\\"'", r"'\x5f\x78'",
+              r"'\U0001d431'", r"'\u0663'", r"'a\u0663'", "''", '""', r"'\x62egin'", r'"en\144"', r"'caf\u00e9'",
+              r"'na\N{LATIN SMALL LETTER I WITH DIAERESIS}ve'", r"'\x2b='", r"'\x61+'", r"'\141\142'", r"'\x31a'",
+              r"'\x20a'", r"'a\x20'", r"'\Ufffffffg'", r"'\N{LATIN SMALL LETTER A}\N{NOPE}'", r"'if\x'", r"'if\u'"]
+
+
+def esc_forms(ch, nxt, last):
+    """the escape sequences that denote one character (nxt: the character written after it)"""
+    cp = ord(ch)
+    f = {}
+    if cp < 256:
+        f["x"] = "\\x%02x" % cp
+        f["o"] = "\\%03o" % cp
+        if nxt is None or nxt not in "01234567":
+            f["o1"] = "\\%o" % cp
+    if cp < 0x10000:
+        f["u"] = "\\u%04x" % cp
+    f["U"] = "\\U%08x" % cp
+    name = unicodedata.name(ch, None)
+    if name:
+        f["N"] = "\\N{%s}" % name
+    # `\\\\` directly before the closing quote is mis-lexed by the grammar's string regex (not C21's business)
+    if ch in SINGLE and not (ch == "\\" and last):
+        f["c"] = SINGLE[ch]
+    return f
+
+
+def spell_token(rng, value, p_esc, quote=None, form=None, only=None):
+    """a grammar string token for `value`: every character is written plainly or (probability p_esc, always for
+    the quote character, control characters and — mostly — the backslash) as an escape sequence; `form` asks for
+    one kind of escape where it is possible, `only` restricts escaping to one position (-1 = the last)"""
+    q = quote or rng.weighted([("'", 3), ('"', 1)])
+    body = ""
+    n = len(value)
+    if only is not None and n:
+        only = only % n
+    keep = False
+    for i, ch in enumerate(value):
+        nxt = value[i + 1] if i + 1 < n else None
+        last = i == n - 1
+        must = ch == q or ch == "\\" or (ord(ch) < 32 and ch not in "\t\n") or ord(ch) == 127
+        if keep:
+            body += ch          # the character after a bare backslash stays as it is
+            keep = False
+            continue
+        if ch == "\\" and not last and nxt not in ESC_START and nxt.isprintable() and rng.chance(0.5):
+            body += ch          # a bare backslash that starts no escape sequence
+            keep = True
+            continue
+        want = (only is None and rng.chance(p_esc)) or (only is not None and i == only)
+        if not (must or want):
+            body += ch
+            continue
+        fs = esc_forms(ch, nxt, last)
+        k = form if form in fs else rng.choice(sorted(fs))
+        t = fs[k]
+        if k in ("x", "u", "U") and rng.chance(0.3):
+            t = t[:2] + t[2:].upper()
+        elif k == "N" and rng.chance(0.2):
+            t = t[:3] + t[3:].lower()
+        body += t
+    return q + body + q
+
+
+def plain_token(value):
+    return "'" + value + "'"
+
+
+def spec_value(tok):
+    """Python's own reading of the token as a string literal (None when Python refuses it)"""
+    q, body = tok[0], tok[1:-1]
+    if "\\\n" in body or "\r" in body:
+        return None
+    try:
+        with warnings.catch_warnings():
+            warnings.simplefilter("ignore")
+            v = ast.literal_eval(q * 3 + body + q * 3)
+    except Exception:
+        return None
+    return v if isinstance(v, str) else None
+
+
+def names_of(tokens):
+    """Python's Unicode name table for the `\\N{name}` written in the tokens"""
+    out = []
+    seen = set()
+    for t in tokens:
+        for name in re.findall(r"\\N\{([^}]+)\}", t):
+            if name in seen:
+                continue
+            seen.add(name)
+            try:
+                with warnings.catch_warnings():
+                    warnings.simplefilter("ignore")
+                    ch = codecs.decode("\\N{%s}" % name, "unicode-escape")
+            except Exception:
+                continue
+            if len(ch) == 1:
+                out.append([cps(name), ord(ch)])
+    return out
 
 
 def opts_of(case):
@@ -133,7 +260,7 @@ def pe_json(g, ic=False):
 
     k = g[0]
     if k == "lit":
-        base = ["lit", cps(g[1])]
+        base = ["slit", cps(tok_of(g))]
         mode = g[2] if len(g) > 2 else "plain"
         return {"add": ["plus", base], "mul": ["star", base], "bool": ["opt", base]}.get(mode, base)
     if k in ("id", "int", "empty"):
@@ -145,10 +272,31 @@ def pe_json(g, ic=False):
         sep, op = g[1], g[2]
         if sep is None:
             return ["plus" if op == "+=" else "star", ["id"]]
-        return ["sepplus" if op == "+=" else "sepstar", ["id"], ["lit", cps(sep)]]
+        return ["sepplus" if op == "+=" else "sepstar", ["id"], ["slit", cps(tok_of(g))]]
     if k in ("seq", "choice", "sepplus", "sepstar"):
         return [k, pe_json(g[1], ic), pe_json(g[2], ic)]
     return [k, pe_json(g[1], ic)]
+
+
+def tok_of(g):
+    """the token of a literal node as written in the grammar: ("lit", value, mode, token) / ("ids", sep, op, token);
+    without a recorded spelling: the value in single quotes"""
+    if len(g) > 3 and g[3] is not None:
+        return g[3]
+    return plain_token(g[1])
+
+
+def toks_of(g):
+    k = g[0]
+    if k == "lit":
+        return [tok_of(g)]
+    if k == "ids":
+        return [tok_of(g)] if g[1] is not None else []
+    if k in ("seq", "choice", "sepplus", "sepstar"):
+        return toks_of(g[1]) + toks_of(g[2])
+    if k in ("star", "opt", "not", "plus", "and"):
+        return toks_of(g[1])
+    return []
 
 
 def lits_of(g):
@@ -175,9 +323,6 @@ def render(g):
     kinds = {"fin": "str"}
     n = [0]
 
-    def q(t):
-        return "'" + t + "'"
-
     def go(g):
         k = g[0]
         if k == "lit":
@@ -185,12 +330,12 @@ def render(g):
             mode = g[2] if len(g) > 2 else "plain"
             if mode in ASG_OPS:
                 kinds[f"k{n[0]}"] = "bool" if mode == "bool" else "str"
-                return f"k{n[0]}{ASG_OPS[mode]}{q(g[1])}"
+                return f"k{n[0]}{ASG_OPS[mode]}{tok_of(g)}"
             if mode == "rule":
-                rules.append(f"Kw{n[0]}: {q(g[1])};")
+                rules.append(f"Kw{n[0]}: {tok_of(g)};")
                 kinds[f"k{n[0]}"] = "str"
                 return f"k{n[0]}=Kw{n[0]}"
-            return q(g[1])
+            return tok_of(g)
         if k == "id":
             n[0] += 1
             kinds[f"i{n[0]}"] = "str"
@@ -209,7 +354,7 @@ def render(g):
         if k == "ids":
             n[0] += 1
             kinds[f"i{n[0]}"] = "str"
-            return f"i{n[0]}{g[2]}ID" + (f"[{q(g[1])}]" if g[1] is not None else "")
+            return f"i{n[0]}{g[2]}ID" + (f"[{tok_of(g)}]" if g[1] is not None else "")
         if k == "seq":
             return f"{go(g[1])} {go(g[2])}"
         if k == "choice":
@@ -226,7 +371,7 @@ def render(g):
             return f"&( {go(g[1])} )"
         if k in ("sepplus", "sepstar"):
             a = go(g[1])
-            return f"( {a} ){'+' if k == 'sepplus' else '*'}[{q(g[2][1])}]"
+            return f"( {a} ){'+' if k == 'sepplus' else '*'}[{tok_of(g[2])}]"
         if k == "empty":
             return "''"
         raise ValueError(k)
@@ -281,7 +426,7 @@ def run_cfg(gtext, text, autokwd, ic, o=None):
     try:
         mm = metamodel(gtext, autokwd, ic, o)
     except Exception as e:
-        return {"gerr": type(e).__name__, "msg": str(e)[:200]}
+        return {"gerr": type(e).__name__}
     try:
         model = mm.model_from_str(text)
     except TextXSyntaxError as e:
@@ -298,6 +443,50 @@ def run_cfg(gtext, text, autokwd, ic, o=None):
     return {"ok": True, "toks": toks, "dump": dump_model(model)}
 
 
+def live_visit(token, ic, autokwd):
+    """what the live `visit_str_match` makes of a string token as written (with its quotes)"""
+    use_repo()
+    from harness import translate_re as T
+    from arpeggio import RegExMatch, StrMatch
+    from textx.exceptions import TextXSyntaxError
+    from textx.lang import TextXVisitor
+
+    class MM(T._MM):
+        file_name = None
+
+    class GP:
+        @staticmethod
+        def pos_to_linecol(pos):
+            return (1, 1)
+
+    class Node:
+        position = 0
+
+    try:
+        with warnings.catch_warnings():
+            warnings.simplefilter("ignore")
+            m = TextXVisitor(GP(), MM(ic, autokwd)).visit_str_match(Node(), [token])
+    except TextXSyntaxError:
+        return {"err": "TextXSyntaxError"}
+    except Exception as e:
+        return {"exc": type(e).__name__, "msg": str(e)[:100]}
+    if isinstance(m, RegExMatch):
+        try:
+            if not hasattr(m, "regex"):
+                m.compile()
+            pat, fl = m.regex.pattern, m.regex.flags
+            try:
+                a = T.to_json(T.translate(pat, fl))
+            except T.Untranslatable as e:
+                a = {"untranslatable": str(e), "pattern": pat}
+            return {"kind": "re", "re": a, "value": cps(m.to_match), "groups": m.regex.groups}
+        except Exception as e:
+            return {"exc": type(e).__name__, "msg": str(e)[:100]}
+    if isinstance(m, StrMatch):
+        return {"kind": "str", "lit": cps(m.to_match), "icase": bool(m.ignore_case)}
+    return {"exc": "class", "msg": type(m).__name__}
+
+
 class Prop(Check):
     ID = "C21"
     LEAN_MODULE = "TextxVerif.Props.C21"
@@ -310,6 +499,12 @@ class Prop(Check):
         "Kwd.C21_same_model",
         "Kwd.C21_literal_value",
         "Kwd.C21_glued_differs",
+        "Kwd.C21_written_literal",
+        "Kwd.C21_spelling_irrelevant",
+        "Kwd.C21_plain_spelling",
+        "Kwd.C21_never_glued_written",
+        "Kwd.C21_non_kwd_unchanged_written",
+        "Kwd.C21_decode_total",
         "Peg.Case.C21_autokwdTok_compileLit",
         "Peg.Case.C21_same_tokTable",
         "Peg.Case.C21_same_run",
@@ -325,13 +520,20 @@ class Prop(Check):
             "injected word characters and (under ignore_case) case variants; and a configuration of the other metamodel "
             "options (use_regexp_group, memoization, auto_init_attributes, textx_tools_support, skipws, ws) — loaded with "
             "autokwd on and off; config-matrix cases: keyword-like literals x assignment kind x ignore_case x "
-            "use_regexp_group x the other options (pairwise) on a case-variant input; lits cases: all literals of "
+            "use_regexp_group x the other options (pairwise) on a case-variant input; every literal of a gram case has a "
+            "spelling (single / double quotes, \\xHH \\uHHHH \\UHHHHHHHH octal \\N{name} single-character escapes, bare "
+            "backslashes; values that need escapes: quotes, backslash, tab); spelling-matrix cases: keyword-like literal x "
+            "kind of escape x position x use of the literal x ignore_case on glued / not glued inputs, symbol literals "
+            "written with escapes, invalid escapes; srcs cases: ~350 string tokens as written (pool literals x spelling, "
+            "non-escapes, invalid escapes) through visit_str_match; lits cases: all literals of "
             "length <= 3 over {a,1,_,é,+,.} and pool / random Unicode literals through visit_str_match.  non-trivial = a "
             "gram case with a keyword-like literal that is accepted with autokwd, or in which a keyword-like literal is "
             "glued to a word character; or a lits case")
     MODELLED = ("regenerated (tie T): TextXVisitor.keyword_regex and the pattern visit_str_match builds for a probe literal "
                 "(Python's re._parser -> Re.R; kwProbe_shape / keyword_shape are rfl); hand-modelled: visit_str_match "
-                "(Kwd.compileLit, tie X op compile on every literal, incl. regex.groups), StrMatch/RegExMatch/KeywordMatch._parse "
+                "(Kwd.compileLit, tie X op compile on every literal, incl. regex.groups; from the token as written: quote "
+                "stripping + decode_escapes = Kwd.litOfSrc / Kwd.visitStrMatch, tie X op compilesrc and the slit nodes of op "
+                "parse, Python's Unicode name table passed as data), StrMatch/RegExMatch/KeywordMatch._parse "
                 "and Arpeggio's sequence / ordered choice / ZeroOrMore / OneOrMore / Optional / Not / And / separator "
                 "repetitions with skipping of the configured whitespace set (Kwd.parse, tie X op parse), the Terminal branch "
                 "of process_node in textx/model.py (value for the object graph, use_regexp_group; Kwd.tokMatch) compared "
@@ -349,6 +551,17 @@ class Prop(Check):
         self.TRANSLATE = translate_re.run
 
     # ------------------------------------------------------------------ generation
+    _pesc = 0.0
+
+    def written(self, rng, value):
+        """the spelling of one occurrence of a literal in the grammar (None = plainly, in single quotes)"""
+        if value is None:
+            return None
+        needs = any(c in "'\\" or ord(c) < 32 for c in value)
+        if not needs and (self._pesc == 0.0 or rng.chance(0.4)):
+            return None if rng.chance(0.8) or '"' in value else '"' + value + '"'
+        return spell_token(rng, value, self._pesc)
+
     def gen_pe(self, rng, lits, depth, inrep=False):
         """random PE; returns (tree, nullable).  inrep: inside a * / + repetition (no `?=` there: textX refuses it)"""
         def leaf(nonnull=False):
@@ -357,14 +570,15 @@ class Prop(Check):
                 mode = rng.weighted([("plain", 6), ("asg", 6), ("rule", 2), ("add", 2), ("mul", 1), ("bool", 2)])
                 if (nonnull and mode in ("mul", "bool")) or (inrep and mode == "bool"):
                     mode = "asg"
-                return ("lit", rng.choice(lits), mode), mode in ("mul", "bool")
+                v = rng.choice(lits)
+                return ("lit", v, mode, self.written(rng, v)), mode in ("mul", "bool")
             if k == "rx":
                 pre, body, kind = rng.choice(RX_POOL)
                 return ("rx", pre, body, rng.weighted([("asg", 4), ("plain", 1)]), kind), False
             if k == "ids":
                 sep = rng.choice([l for l in lits] + SEP_POOL) if rng.chance(0.75) else None
                 op = "+=" if nonnull or rng.chance(0.7) else "*="
-                return ("ids", sep, op), op == "*="
+                return ("ids", sep, op, self.written(rng, sep)), op == "*="
             return (k,), False
 
         def body(d, inrep=inrep):
@@ -393,12 +607,15 @@ class Prop(Check):
             return ("plus", body(depth - 1, True)), False
         if k == "sep":
             kk = rng.choice(["sepplus", "sepplus", "sepstar"])
-            return (kk, body(depth - 1, True), ("lit", rng.choice(lits + SEP_POOL), "plain")), kk == "sepstar"
+            v = rng.choice(lits + SEP_POOL)
+            return (kk, body(depth - 1, True), ("lit", v, "plain", self.written(rng, v))), kk == "sepstar"
         if k == "andseq":
             # `&kw ID`: only identifiers that are the keyword (on a word boundary under autokwd)
-            return ("seq", ("and", ("lit", rng.choice(lits), "plain")), ("id",)), False
+            v = rng.choice(lits)
+            return ("seq", ("and", ("lit", v, "plain", self.written(rng, v))), ("id",)), False
         # `!kw ID`: the usual way to keep keywords out of identifiers
-        return ("seq", ("not", ("lit", rng.choice(lits), "plain")), ("id",)), False
+        v = rng.choice(lits)
+        return ("seq", ("not", ("lit", v, "plain", self.written(rng, v))), ("id",)), False
 
     def spell(self, rng, t, ic):
         if ic and rng.chance(0.5):
@@ -480,8 +697,10 @@ class Prop(Check):
 
     def gram_case(self, rng, tier, exotic=False):
         nl = rng.randint(1, 4)
-        pool_kw = KW_POOL + (["is", "sı", "iſ", "σας"] if exotic else [])
-        lits = [rng.choice(pool_kw) if rng.chance(0.6) else rng.choice(SYM_POOL) for _ in range(nl)]
+        pool_kw = KW_POOL + EXTRA_KW + (["is", "sı", "iſ", "σας"] if exotic else [])
+        self._pesc = rng.weighted([(0.0, 5), (0.25, 3), (1.0, 2)])
+        lits = [rng.choice(pool_kw) if rng.chance(0.6) else rng.choice(SYM_POOL + (ESC_VALUES if rng.chance(0.25) else []))
+                for _ in range(nl)]
         if rng.chance(0.15):
             lits.append("".join(rng.choice(SMALL) for _ in range(rng.randint(1, 3))))
         ic = rng.chance(0.35) or exotic
@@ -544,6 +763,82 @@ class Prop(Check):
                             out.append({"k": "gram", "g": g, "ic": ic, "opts": o, "text": cps(text), "origin": "config-matrix"})
         return out
 
+    def src_cases(self, rng, tier):
+        """grammar string tokens as written, through visit_str_match: every pool literal plainly in either quote,
+        with each kind of escape sequence at the first / the last character and throughout, mixed spellings, and
+        the hand-written tokens (no-escapes, invalid escapes)"""
+        toks = []
+        values = KW_POOL + EXTRA_KW + SYM_POOL + ESC_VALUES + ["٣a", "a٣", "_", "__", "a b", "𝐱1", "中文", "A1_", "b-c"]
+        for v in values:
+            if not any(c in "'\\" for c in v):
+                toks.append("'" + v + "'")
+            if not any(c in '"\\' for c in v):
+                toks.append('"' + v + '"')
+            for form in ESC_FORMS:
+                for only in (0, -1, None):
+                    toks.append(spell_token(rng, v, 1.0, form=form, only=only))
+            for _ in range(2):
+                toks.append(spell_token(rng, v, 0.5))
+        toks = sorted(set(toks))
+        if tier == "quick":
+            toks = rng.sample(toks, min(len(toks), 300))
+        toks = RAW_TOKENS + toks
+        out = []
+        for ic in (False, True):
+            for i in range(0, len(toks), 50):
+                out.append({"k": "srcs", "srcs": [cps(t) for t in toks[i: i + 50]], "ic": ic, "origin": "escape-matrix"})
+        return out
+
+    def spelling_matrix(self, rng, tier):
+        """keyword-like literal x kind of escape sequence x escaped position x way the literal is used x ignore_case,
+        on inputs with the keyword glued / not glued to a word character; symbol literals written with escapes; and
+        literals with an invalid escape sequence (the grammar is refused with and without autokwd)"""
+        out = []
+        kws = KW_POOL + EXTRA_KW
+        picks = rng.sample(kws, 4 if tier == "quick" else len(kws))
+        n = rng.below(7)
+        modes = ["asg", "mul", "sep", "rule", "not", "plain", "add"]
+        for l in picks:
+            for form in ["x", "o", "u", "U", "N", "mixed", "dq"]:
+                for only in ((0, -1, None) if form in ESC_FORMS else (None,)):
+                    if form == "dq":
+                        tok = '"' + l + '"'
+                    elif form == "mixed":
+                        tok = spell_token(rng, l, 0.6)
+                    else:
+                        tok = spell_token(rng, l, 1.0, form=form, only=only)
+                    mode = modes[n % len(modes)]
+                    ic = n % 2 == 1
+                    n += 1
+                    w = rng.choice(["x", "1", "_", "é"])
+                    if mode == "sep":
+                        g = ("seq", ("ids", l, "+=", tok), ("opt", ("id",)))
+                        texts = [f"x {l} y {l}{w} .", f"x {l} y {l} .", f"x{l} y."]
+                    elif mode == "mul":
+                        g = ("seq", ("lit", l, "mul", tok), ("id",))
+                        texts = [f"{l} {l}{w} .", f"{l} {l} z .", f"{l}{l} z."]
+                    elif mode == "not":
+                        g = ("seq", ("not", ("lit", l, "plain", tok)), ("id",))
+                        texts = [f"{l}{w} .", f"{l} .", "zz ."]
+                    else:
+                        g = ("seq", ("lit", l, mode, tok), ("opt", ("id",)))
+                        texts = [f"{l}{w} .", f"{l} {w} .", f"{l}."]
+                    for t in texts:
+                        if ic and rng.chance(0.5):
+                            t = t.swapcase() if len(t.swapcase()) == len(t) else t
+                        out.append({"k": "gram", "g": g, "ic": ic, "text": cps(t), "origin": "spelling-matrix"})
+        for v in ["+=", "a.b", "a\tb", "it's", "1a", "a\\b", "->"]:
+            for form in ["x", "o", "u", "U", "N"]:
+                tok = spell_token(rng, v, 1.0, form=form, only=rng.below(len(v)))
+                g = ("seq", ("lit", v, "asg", tok), ("opt", ("id",)))
+                for t in (v + "x .", v + " ."):
+                    out.append({"k": "gram", "g": g, "ic": n % 2 == 1, "text": cps(t), "origin": "spelling-matrix"})
+                n += 1
+        for tok in [r"'\xZZ'", r"'be\u12zzgin'", r"'\N{NO SUCH NAME}'", r"'if\U00110000'"]:
+            g = ("seq", ("lit", "if", "asg", tok), ("opt", ("id",)))
+            out.append({"k": "gram", "g": g, "ic": False, "text": cps("if x ."), "bad": True, "origin": "spelling-matrix"})
+        return out
+
     def gen(self, rng, n, tier):
         out = []
         # --- every literal of length <= 3 over the small alphabet, 43 per case
@@ -566,10 +861,19 @@ class Prop(Check):
         r = rng.fork("glue")
         kws = [l for l in allits if kwlike_spec(l)]
         picks = kws if tier != "quick" else r.sample(kws, 20)
+        styles = [None, "dq", "x", "o", "u", "U", "N", "mixed"]
+        ns = r.below(len(styles))
         for l in picks:
             for follow in ["", " ", "a", "1", "_", "é", "+", ".", " a"]:
-                g = ("seq", ("lit", l, "asg"), ("opt", ("id",)))
+                st = styles[ns % len(styles)]
+                ns += 3
+                tok = (None if st is None else '"' + l + '"' if st == "dq" else spell_token(r, l, 0.5) if st == "mixed"
+                       else spell_token(r, l, 1.0, form=st, only=r.below(len(l))))
+                g = ("seq", ("lit", l, "asg", tok), ("opt", ("id",)))
                 out.append({"k": "gram", "g": g, "ic": False, "text": cps(l + follow + " ."), "origin": "glue-matrix"})
+        # --- literals as written: tokens through visit_str_match, keywords written with escapes in grammars
+        out.extend(self.src_cases(rng.fork("srcs"), tier))
+        out.extend(self.spelling_matrix(rng.fork("spelling"), tier))
         # --- the other metamodel options, systematically
         out.extend(self.config_matrix(rng.fork("config"), tier))
         # --- random grammars
@@ -611,6 +915,9 @@ class Prop(Check):
                         row["on" if ak else "off"] = {"kind": "str", "lit": cps(got[1]), "icase": got[2]}
                 res.append(row)
             return {"rows": res}
+        if case["k"] == "srcs":
+            return {"rows": [{"on": live_visit(uncps(t), case["ic"], True), "off": live_visit(uncps(t), case["ic"], False)}
+                             for t in case["srcs"]]}
         gtext, kinds = render(case["g"])
         text = uncps(case["text"])
         o = opts_of(case)
@@ -618,10 +925,16 @@ class Prop(Check):
                 "grammar": gtext, "kinds": kinds}
 
     # ------------------------------------------------------------------ model
-    def chars_of(self, case):
+    def chars_of(self, case, obs=None):
         if case["k"] == "lits":
             return "".join(uncps(l) for l in case["lits"])
-        return uncps(case["text"]) + "".join(lits_of(case["g"]))
+        if case["k"] == "srcs":
+            out = "".join(uncps(t) for t in case["srcs"]) + "".join(spec_value(uncps(t)) or "" for t in case["srcs"])
+            for row in (obs or {}).get("rows", []):
+                for cfg in ("on", "off"):
+                    out += uncps(row[cfg].get("value") or row[cfg].get("lit") or [])
+            return "".join(c for c in out if not 0xD800 <= ord(c) < 0xE000)
+        return uncps(case["text"]) + "".join(lits_of(case["g"])) + "".join(spec_value(t) or "" for t in toks_of(case["g"]))
 
     def model_req(self, case, obs):
         cc = cc_of(self.chars_of(case))
@@ -629,10 +942,12 @@ class Prop(Check):
             # two requests in one: the runner allows one request per case, so ask for autokwd=on only and
             # compare the off side with the constant answer (a string match) in `compare`
             return {"op": "compile", "cc": cc, "lits": case["lits"], "autokwd": True, "icase": case["ic"]}
-        if "gerr" in obs["on"] or "gerr" in obs["off"]:
-            return None
+        if case["k"] == "srcs":
+            toks = [uncps(t) for t in case["srcs"]]
+            return {"op": "compilesrc", "cc": cc_of(self.chars_of(case, obs)), "names": names_of(toks), "srcs": case["srcs"],
+                    "icase": case["ic"]}
         o = opts_of(case)
-        return {"op": "parse", "cc": cc, "g": full_pe(case["g"], case["ic"]), "icase": case["ic"], "ws": cps(eff_ws(o)),
+        return {"op": "parse", "cc": cc, "names": names_of(toks_of(case["g"])), "g": full_pe(case["g"], case["ic"]), "icase": case["ic"], "ws": cps(eff_ws(o)),
                 "ug": o["rg"], "text": case["text"]}
 
     def compare(self, case, obs, out):
@@ -647,8 +962,30 @@ class Prop(Check):
                 if on != mt:
                     return f"literal {lit!r} with autokwd compiles to {on}, model {mt}"
             return None
+        if case["k"] == "srcs":
+            for tc, row, mt in zip(case["srcs"], obs["rows"], out["rows"]):
+                tok = uncps(tc)
+                if mt.get("err") == "surrogate":
+                    continue        # Lean's Char has no surrogates: outside the model
+                if "err" in mt:
+                    want = {"on": {"err": "TextXSyntaxError"}, "off": {"err": "TextXSyntaxError"}}
+                else:
+                    want = {"on": mt["on"], "off": mt["off"]}
+                for cfg in ("on", "off"):
+                    if row[cfg] != want[cfg]:
+                        return (f"token {tok} with autokwd {cfg} (ignore_case={case['ic']}) compiles to {row[cfg]}, "
+                                f"model {want[cfg]}")
+            return None
+        if "gerr" in out:
+            for cfg in ("on", "off"):
+                if obs[cfg].get("gerr") != "TextXSyntaxError":
+                    return (f"autokwd {cfg}: grammar {obs['grammar']!r} has a literal with an invalid escape sequence "
+                            f"(model: {out['gerr']}), implementation {obs[cfg]}")
+            return None
         for cfg in ("on", "off"):
             o, mo = obs[cfg], out[cfg]
+            if "gerr" in o:
+                return f"autokwd {cfg}: grammar {obs['grammar']!r} refused by the implementation ({o}), not by the model"
             if "ok" not in o:
                 return f"autokwd {cfg}: implementation {o}"
             if o["ok"] != mo["ok"]:
@@ -738,7 +1075,38 @@ class Prop(Check):
                 if off.get("kind") != "str":
                     return f"without autokwd the literal {lit!r} does not compile to a plain string match: {off}"
             return None
+        if case["k"] == "srcs":
+            for tc, row in zip(case["srcs"], obs["rows"]):
+                tok = uncps(tc)
+                on, off = row["on"], row["off"]
+                if "exc" in on or "exc" in off:
+                    return f"visit_str_match fails on the token {tok}: on {on}, off {off}"
+                if ("err" in on) != ("err" in off):
+                    return f"token {tok}: refused {'with' if 'err' in on else 'without'} autokwd only (on {on}, off {off})"
+                lit = spec_value(tok)
+                if lit is None or "err" in on:
+                    continue        # Python reads the token differently / not at all: no independent notion
+                if off != {"kind": "str", "lit": cps(lit), "icase": case["ic"]}:
+                    return f"without autokwd the token {tok} (= {lit!r}) does not compile to a string match of its value: {off}"
+                if all(ord(c) < 128 or c in "éï" for c in lit):
+                    want = kwlike_spec(lit)
+                    if (on.get("kind") == "re") != want:
+                        return (f"the literal written {tok} is {lit!r} and {'looks' if want else 'does not look'} like an "
+                                f"identifier but autokwd compiles it to a {'regex' if on.get('kind') == 're' else 'string'} match")
+                    if uncps(on.get("value") or on.get("lit") or []) != lit:
+                        return f"the literal written {tok} is {lit!r} but autokwd compiles a match for {on}"
+            return None
         on, off = obs["on"], obs["off"]
+        if case.get("bad"):
+            for cfg, o in (("on", on), ("off", off)):
+                if o.get("gerr") != "TextXSyntaxError":
+                    return (f"grammar {obs['grammar']!r} has a literal with an invalid escape sequence but autokwd {cfg} "
+                            f"gives {o}")
+            return None
+        for g1 in self.lit_nodes(case["g"]):
+            sv = spec_value(tok_of(g1))
+            if sv is not None and sv != g1[1]:
+                return f"malformed case: the token {tok_of(g1)} denotes {sv!r}, recorded value {g1[1]!r}"
         for cfg, o in (("on", on), ("off", off)):
             if "gerr" in o:
                 return f"grammar {obs['grammar']!r} not loadable with autokwd {cfg}: {o}"
@@ -772,8 +1140,21 @@ class Prop(Check):
                         f"(grammar {obs['grammar']!r}, ignore_case={case['ic']}): on {on['dump']}, off {off['dump']}")
         return None
 
+    @staticmethod
+    def lit_nodes(g):
+        k = g[0]
+        if k == "lit" or (k == "ids" and g[1] is not None):
+            return [g]
+        if k in ("seq", "choice", "sepplus", "sepstar"):
+            return Prop.lit_nodes(g[1]) + Prop.lit_nodes(g[2])
+        if k in ("star", "opt", "not", "plus", "and"):
+            return Prop.lit_nodes(g[1])
+        return []
+
     def nontrivial(self, case, obs):
-        if case["k"] == "lits":
+        if case["k"] in ("lits", "srcs"):
+            return True
+        if case.get("bad"):
             return True
         lits = lits_of(case["g"])
         kws = [l for l in lits if kwlike_spec(l)]
@@ -817,6 +1198,11 @@ class Prop(Check):
 
     # ------------------------------------------------------------------ shrinking / search
     def shrink(self, case):
+        if case["k"] == "srcs":
+            if len(case["srcs"]) > 1:
+                for i in range(len(case["srcs"])):
+                    yield dict(case, srcs=[case["srcs"][i]])
+            return
         if case["k"] != "gram":
             if len(case["lits"]) > 1:
                 for i in range(len(case["lits"])):
@@ -846,7 +1232,7 @@ class Prop(Check):
                 if t[1] is not None:
                     yield ("ids", None, t[2])
             elif k == "lit" and len(t) > 2 and t[2] != "asg":
-                yield ("lit", t[1], "asg")
+                yield ("lit", t[1], "asg") + tuple(t[3:4])
 
         for g2 in subs(g):
             yield dict(case, g=g2)
@@ -870,13 +1256,17 @@ class Prop(Check):
             c["text_str"] = uncps(c["text"])
         if "lits" in c:
             c["lits_str"] = [uncps(l) for l in c["lits"]]
+        if "srcs" in c:
+            c["srcs_str"] = [uncps(l) for l in c["srcs"]]
         return {"case": c, "impl": obs}
 
     def extra_evidence(self, cases, obs, outs):
         acc_on = acc_off = glued = with_kw = ic = 0
         ngram = 0
         optc = {"use_regexp_group": 0, "memoization": 0, "auto_init_attributes_off": 0, "textx_tools_support": 0,
-                "skipws_off": 0, "custom_ws": 0, "regex_with_group": 0, "ic_and_regexp_group_accepted": 0}
+                "skipws_off": 0, "custom_ws": 0, "regex_with_group": 0, "ic_and_regexp_group_accepted": 0,
+                "literal_written_with_escape": 0, "keyword_written_with_escape_and_glued": 0, "double_quoted_literal": 0,
+                "invalid_escape": 0}
         for c, o in zip(cases, obs):
             if c["k"] != "gram" or "on" not in o:
                 continue
@@ -901,8 +1291,15 @@ class Prop(Check):
             optc["custom_ws"] += oo["ws"] is not None
             optc["regex_with_group"] += "'rx'" in repr(c["g"]) or '"rx"' in repr(c["g"])
             optc["ic_and_regexp_group_accepted"] += bool(c["ic"] and oo["rg"] and o["on"].get("ok"))
+            nodes = self.lit_nodes(c["g"])
+            optc["literal_written_with_escape"] += any("\\" in tok_of(g1) for g1 in nodes)
+            optc["double_quoted_literal"] += any(tok_of(g1).startswith('"') for g1 in nodes)
+            optc["invalid_escape"] += bool(c.get("bad"))
+            optc["keyword_written_with_escape_and_glued"] += any(
+                "\\" in tok_of(g1) and kwlike_spec(g1[1]) and self.glued(uncps(c["text"]), [g1[1]], c["ic"]) for g1 in nodes)
         nl = sum(len(c["lits"]) for c in cases if c["k"] == "lits")
+        ns = sum(len(c["srcs"]) for c in cases if c["k"] == "srcs")
         return {"distribution": {"gram_cases": ngram, "with_keyword_like_literal": with_kw, "accepted_autokwd_on": acc_on,
                                  "accepted_autokwd_off": acc_off, "glued_keyword_in_text": glued, "ignore_case": ic,
-                                 "literals_compiled": nl, "options": optc},
+                                 "literals_compiled": nl, "tokens_as_written_compiled": ns, "options": optc},
                 "exhaustive": {"literals_len_le_3_over_6_chars_x_2_configs": sum(len(c["lits"]) for c in cases if c.get("origin") == "exhaustive")}}
